@@ -134,6 +134,28 @@ func (g *gen) call(instr ssa.Instruction, c *ssa.CallCommon, pos token.Pos) Val 
 		cargs = args[1:]
 	}
 	g.callSiteClauses(key, args, c, pos)
+	if g.e.inRepo(callee) && g.nilArgs {
+		// assume/guarantee: callees assume non-nil receivers and syntax-node pointers; every call site proves it
+		for i, p := range callee.Params {
+			if i >= len(args) {
+				break
+			}
+			isRecv := i == 0 && callee.Signature.Recv() != nil
+			if (isRecv && isRepoStructPtr(p.Type())) || isAstPtr(p.Type()) || (!isRecv && isRepoStructPtr(p.Type())) {
+				if args[i].Place == nil && args[i].Sort == "Int" {
+					skip := false
+					for _, a := range g.allocs {
+						if a == args[i].T {
+							skip = true
+						}
+					}
+					if !skip && !strings.HasPrefix(args[i].T, "(- ") {
+						g.obligeAndAssume("nilarg", g.label(pos, callee.Name(), "call")+" arg "+p.Name(), not(eq(args[i].T, "0")), pos)
+					}
+				}
+			}
+		}
+	}
 	if g.e.inRepo(callee) {
 		if ctr := g.e.ctrs[key]; ctr != nil {
 			return g.applyContractFn(ctr, key, callee, args, bindings, pos)
@@ -149,6 +171,30 @@ func (g *gen) call(instr ssa.Instruction, c *ssa.CallCommon, pos token.Pos) Val 
 		_ = recv
 		_ = cargs
 		return g.applyContractFn(ctr, key, callee, args, nil, pos)
+	}
+	if strings.HasPrefix(key, "github.com/go-toolsmith/astcast.To") || strings.HasPrefix(key, "github.com/go-toolsmith/astcopy.") {
+		// astcast.ToX returns its argument or a package-level sentinel node, never nil; astcopy.X(n) returns nil only for nil n
+		g.assumed["deps: "+strings.SplitN(key, ".", 3)[0]+"."+strings.SplitN(key, "/", 3)[2]+" returns a non-nil node (astcopy: for a non-nil argument)"] = true
+		g.tick() // the callee may allocate: results are introduced in the state after the call
+		r := g.resultVal(sig, func(i int, t types.Type) Val { return g.freshVal("ret_"+callee.Name(), t) })
+		if r.Sort == "Int" {
+			if strings.Contains(key, "astcast.To") {
+				g.assume(not(eq(r.T, "0")))
+			} else if len(args) == 1 && args[0].Sort == "Int" {
+				g.assume(implies(not(eq(args[0].T, "0")), not(eq(r.T, "0"))))
+			}
+		} else if r.Sort == "Iface" && len(args) == 1 && args[0].Sort == "Iface" {
+			g.assume(implies(not(eq(app("i_tag", args[0].T), "0")), and(eq(app("i_tag", r.T), app("i_tag", args[0].T)), not(eq(app("i_val", r.T), "0")))))
+		}
+		if strings.Contains(key, "astcopy.") {
+			// a deep copy: the result is a fresh region (frame reasoning of C05)
+			if r.Sort == "Int" {
+				g.assume(implies(not(eq(r.T, "0")), app(">", g.birth(r.T), g.now0())))
+			} else if r.Sort == "Iface" {
+				g.assume(implies(not(eq(app("i_tag", r.T), "0")), app(">", g.birth(app("i_val", r.T)), g.now0())))
+			}
+		}
+		return r
 	}
 	if v, ok := g.intrinsic(key, callee, args, pos); ok {
 		g.assumed["intrinsic:"+key] = true
